@@ -163,11 +163,46 @@ def missed():
             + '\n'.join(out))
 
 
+def refactors():
+    rows = ['| property | refactoring | demo clean / refactored | pinned tests | verdict of `./check` on the refactored tree | what was rewritten |', '|---|---|---|---|---|---|']
+    n = alarms = 0
+    for d in sorted(glob.glob(os.path.join(ROOT, 'refactors', '*'))):
+        mp = os.path.join(d, 'meta.json')
+        if not os.path.exists(mp):
+            continue
+        m = json.load(open(mp))
+        n += 1
+        al = m.get('alarm_by') or []
+        alarms += bool(al)
+        last = '; '.join('%s rc=%s (%s)' % (k, r['rc'], (r['lines'][-1] if r['lines'] else '')[:90]) for k, r in m.get('checks', {}).items())
+        rows.append('| %s | `%s` | %s / %s | %s | %s | %s |' % (
+            m.get('property'), os.path.basename(d), m.get('demo_clean_rc'), m.get('demo_patched_rc'), (m.get('pinned_tests') or '')[:24],
+            ('**ALARM** ' if al else 'quiet: ') + last, summary_line(m.get('needs') or '')))
+    return '%d behaviour-preserving refactorings evaluated, %d raised an alarm at the last evaluation:\n\n' % (n, alarms) + '\n'.join(rows)
+
+
+def coverage():
+    rows = ['| property | executable lines of the anchored functions | executed in the last committed quick run | functions with lines never executed |', '|---|---|---|---|']
+    for i in range(1, 21):
+        pid = 'C%02d' % i
+        try:
+            c = json.load(open(os.path.join(ROOT, 'evidence', pid + '.json')))['coverage'].get('code_coverage')
+        except Exception:
+            c = None
+        if not isinstance(c, dict):
+            rows.append('| %s | - | not measured | |' % pid)
+            continue
+        miss = ['`%s` %s' % (k.split('::')[-1], v['never_executed'][:12]) for k, v in c['functions'].items()
+                if isinstance(v, dict) and v.get('never_executed')]
+        rows.append('| %s | %d | %d (%s %%) | %s |' % (pid, c['executable_lines'], c['executed_lines'], c['percent'], '; '.join(miss)[:600]))
+    return '\n'.join(rows)
+
+
 def main():
     p = os.path.join(ROOT, 'DESIGN.md')
     s = open(p).read()
     for name, fn in (('modules', modules), ('theorems', theorems), ('defects', defects), ('rounds', rounds),
-                     ('seeded', seeded), ('missed', missed)):
+                     ('seeded', seeded), ('missed', missed), ('refactors', refactors), ('coverage', coverage)):
         pat = re.compile(r'(<!-- gen:%s -->\n)(?:.*?\n)??(<!-- /gen:%s -->)' % (name, name), re.S)
         if not pat.search(s):
             sys.exit('marker gen:%s missing in DESIGN.md' % name)
